@@ -19,12 +19,12 @@ pub fn def() -> PropDef {
     PropDef {
         id: "C05",
         level: "exploration",
-        rule: "A writer thread runs a generated history (adds, deletes, commits tagged c<n>, aborts, rollbacks, explicit and policy merges, gc, writer drop/reopen) on SimDir or MmapDirectory while 1-3 reader threads - on the same Index and on a second Index::open of the same directory - loop reload(); fingerprint(searcher) and keep a generated subset of searchers alive to re-fingerprint them later (also after gc and after the writer is gone). SimDir gates hold a reloading reader at its n-th segment-file open for a bounded time while the writer continues. Oracle: every fingerprint taken after a reload equals the model of exactly one commit j with j >= the last commit completed before the reload began, j <= the last commit started before the observation ended, and j non-decreasing per reader; a held searcher's fingerprint, count and documents never change; no reload or search returns an error. Half of the readers register a Warmer and a second thread polls searcher() of the same reader during the reloads: the state the warmer was shown for a generation is the state every holder of that generation gets, and a generation's (segment, delete opstamp) map is the one of the searcher's segment readers. Non-trivial = a reload overlapped a commit call (logical clock intervals) or a held searcher outlived >= 2 commits; distinct by hash(case). restart_during_merge: a merge of the first writer is held at a generated storage operation (SimDir gate) while the writer is dropped and a new writer adds, deletes and commits; readers (same Index or a second Index::open) must show the newest commit before the old merge is released, after it finished, through a fresh handle, and after one more commit.",
+        rule: "A writer thread runs a generated history (adds, deletes, commits tagged c<n>, aborts, rollbacks, explicit and policy merges, gc, writer drop/reopen) on SimDir or MmapDirectory while 1-3 reader threads - on the same Index and on a second Index::open of the same directory - loop reload(); fingerprint(searcher) and keep a generated subset of searchers alive to re-fingerprint them later (also after gc and after the writer is gone). SimDir gates hold a reloading reader at its n-th segment-file open for a bounded time while the writer continues. Oracle: every fingerprint taken after a reload equals the model of exactly one commit j with j >= the last commit completed before the reload began, j <= the last commit started before the observation ended, and j non-decreasing per reader; a held searcher's fingerprint, count and documents never change; no reload or search returns an error. Half of the readers register a Warmer and a second thread polls searcher() of the same reader during the reloads: the state the warmer was shown for a generation is the state every holder of that generation gets, and a generation's (segment, delete opstamp) map is the one of the searcher's segment readers. Non-trivial = a reload overlapped a commit call (logical clock intervals) or a held searcher outlived >= 2 commits; distinct by hash(case). restart_during_merge: a merge of the first writer is held at a generated storage operation (SimDir gate) while the writer is dropped and a new writer adds, deletes and commits; readers (same Index or a second Index::open) must show the newest commit before the old merge is released, after it finished, through a fresh handle, and after one more commit. handover: two parties on two Index instances of one directory take turns being the writer - each one commits its documents and drops its writer while the other one is already spinning on writer creation - and a reader of a third instance reloads after every commit: the documents of every earlier commit stay visible (a writer that starts from a segment list read before it got the lock would publish an older state).",
         assumptions: vec![
             "interleavings are those the OS produces plus bounded holds of readers at storage operations (gates); timeouts only steer, they never decide",
             "fingerprint = hash over (uid, group, body, num) of all live documents read through store and fast fields",
         ],
-        subs: vec![Box::new(Readers), Box::new(RestartDuringMerge)],
+        subs: vec![Box::new(Readers), Box::new(RestartDuringMerge), Box::new(Handover)],
     }
 }
 
@@ -668,6 +668,128 @@ impl Sub for RestartDuringMerge {
             cx.nontrivial(fp(c));
         }
         cx.sample(|| json!({"sub": "restart_during_merge", "cfg": c.cfg, "prefix": c.prefix.len(), "gate": [c.gate_kind, c.gate_nth], "during": c.during, "second_index": c.second_index, "gate_reached": reached}));
+        Ok(())
+    }
+}
+
+// ------------------------------------------------------------------------------------------------
+/// Writer hand-over between two Index instances: while party A commits its last documents and drops its writer, party B is
+/// already spinning on `Index::writer`; whoever gets the lock next starts from the latest commit - the reader never moves
+/// back, no committed document disappears.
+#[derive(Clone, Debug, Serialize, Deserialize)]
+pub struct HandoverCase {
+    pub dir: DirKind,
+    /// documents per turn
+    pub turns: Vec<u8>,
+    /// the party that waits starts spinning before (true) or after (false) the other one begins its last commit
+    pub early_spin: bool,
+}
+pub struct Handover;
+impl Sub for Handover {
+    type Case = HandoverCase;
+    fn name(&self) -> &'static str {
+        "handover"
+    }
+    fn cases(&self, tier: Tier) -> u32 {
+        tier.pick(240, 4000)
+    }
+    fn shards(&self, _t: Tier) -> usize {
+        8
+    }
+    fn max_shrink_iters(&self) -> u32 {
+        100
+    }
+    fn strategy(&self, _tier: Tier) -> BoxedStrategy<HandoverCase> {
+        (prop_oneof![2 => Just(DirKind::Ram), 2 => Just(DirKind::Sim), 1 => Just(DirKind::Mmap)], prop::collection::vec(1u8..4, 3..10), any::<bool>()).prop_map(|(dir, turns, early_spin)| HandoverCase { dir, turns, early_spin }).boxed()
+    }
+    fn mandatory_labels(&self, _t: Tier) -> Vec<&'static str> {
+        vec!["handover", "successor_was_refused_while_predecessor_alive", "dir:Mmap", "dir:Sim"]
+    }
+    fn run(&self, c: &HandoverCase, cx: &Ctx) -> CaseResult {
+        let cfg = HistCfg { threads: 1, flush_every: 0, policy: Policy::NoMerge, sorted: None, dir: c.dir, tiny_blocks: false, short_writes: false, codec_switch: false, jitter: 0 };
+        let mut env = Env::new(cfg)?;
+        env.check_quiescence = false;
+        drop(env.writer.take());
+        let open = |env: &Env| -> Result<Index, Failure> {
+            match &env.dir {
+                DirHandle::Sim(sd) => Index::open(sd.clone()),
+                DirHandle::Mmap(p) => Index::open(tantivy::directory::MmapDirectory::open(p).or_fail("INFRA:mmap")?),
+                DirHandle::Ram(rd) => Index::open(rd.clone()),
+            }
+            .or_fail("index_open_failed")
+        };
+        let parties = [open(&env)?, open(&env)?];
+        let observer = open(&env)?;
+        let reader: IndexReader = observer.reader_builder().reload_policy(ReloadPolicy::Manual).try_into().or_fail("reader_open_failed")?;
+        let (_s, f) = hist_schema();
+        let mk = |uid: u64| {
+            let mut d = tantivy::TantivyDocument::new();
+            d.add_u64(f.uid, uid);
+            d.add_text(f.grp, format!("g{}", uid % 4));
+            d.add_text(f.body, format!("w{} w{}", uid % 6, (uid + 1) % 6));
+            d.add_i64(f.num, uid as i64);
+            d
+        };
+        let mut expected: Model = Model::new();
+        let mut next_uid = 0u64;
+        let mut refused = false;
+        // party 0 starts as the writer
+        let mut current: tantivy::IndexWriter = crate::util::writer(&parties[0], crate::util::WriterCfg::default()).or_fail("writer_failed")?;
+        current.set_merge_policy(Box::new(tantivy::merge_policy::NoMergePolicy));
+        for (turn, n) in c.turns.iter().enumerate() {
+            let successor_index = parties[(turn + 1) % 2].clone();
+            let go = Arc::new(AtomicBool::new(false));
+            let go2 = go.clone();
+            let spinner = std::thread::Builder::new()
+                .name(format!("successor-{turn}"))
+                .spawn(move || -> Result<(tantivy::IndexWriter, u32), String> {
+                    while !go2.load(Ordering::SeqCst) {
+                        std::thread::yield_now();
+                    }
+                    let mut refusals = 0u32;
+                    for _ in 0..2_000_000u32 {
+                        match crate::util::writer(&successor_index, crate::util::WriterCfg::default()) {
+                            Ok(w) => return Ok((w, refusals)),
+                            Err(tantivy::TantivyError::LockFailure(..)) => refusals += 1,
+                            Err(e) => return Err(format!("{e:?}")),
+                        }
+                        std::thread::yield_now();
+                    }
+                    Err("the lock never became free".into())
+                })
+                .expect("spawn");
+            if c.early_spin {
+                go.store(true, Ordering::SeqCst);
+            }
+            for _ in 0..*n {
+                current.add_document(mk(next_uid)).or_fail("add_failed")?;
+                expected.insert(next_uid, DocRec { grp: (next_uid % 4) as u8, words: vec![(next_uid % 6) as u8, ((next_uid + 1) % 6) as u8], num: next_uid as i64 });
+                next_uid += 1;
+            }
+            go.store(true, Ordering::SeqCst);
+            current.commit().or_fail("commit_failed")?;
+            drop(current);
+            let (w, refusals) = spinner.join().map_err(|_| Failure::new("panic:successor", ""))?.map_err(|e| Failure::new("successor_writer_failed", e))?;
+            refused |= refusals > 0;
+            current = w;
+            current.set_merge_policy(Box::new(tantivy::merge_policy::NoMergePolicy));
+            // the successor publishes something of its own at once
+            current.add_document(mk(next_uid)).or_fail("add_failed")?;
+            expected.insert(next_uid, DocRec { grp: (next_uid % 4) as u8, words: vec![(next_uid % 6) as u8, ((next_uid + 1) % 6) as u8], num: next_uid as i64 });
+            next_uid += 1;
+            current.commit().or_fail("commit_failed")?;
+            reader.reload().or_fail("reload_failed")?;
+            verify_searcher(&reader.searcher(), &f, &expected, "after_handover").map_err(|fl| Failure::new(format!("handover:{}", fl.sig), format!("turn {turn}: after the successor's first commit: {}", fl.detail)))?;
+            cx.evals(1);
+        }
+        drop(current);
+        cx.label("handover");
+        cx.label_if(refused, "successor_was_refused_while_predecessor_alive");
+        cx.label(&format!("dir:{:?}", c.dir));
+        if refused {
+            cx.nontrivial(crate::engine::fnv(&serde_json::to_vec(c).unwrap()));
+        }
+        cx.sample(|| json!({"sub": "handover", "dir": c.dir, "turns": c.turns}));
         Ok(())
     }
 }
